@@ -582,7 +582,9 @@ def ctx_honoured(rep, F, E, fns, rule='PROV-CTX', allow_mirror=False):
                 pv = E.arg_prov(f, t, i - 1)
                 if kind == 'ctx':
                     srcs = pv.all()
-                    extra = {s for s in srcs if not s.startswith(P_CTX) and not s.startswith('tag:')}
+                    # Option wrappers and the identity of a local closure (its captures and body are followed) carry no value of their own
+                    extra = {s for s in srcs if not s.startswith(P_CTX) and not s.startswith('tag:') and s not in ('variant:Option::None', 'variant:Option::Some')
+                             and not (s.startswith('closure:') and s[len('closure:'):] in F.fns)}
                     rounding = pv.f.get('rounding', srcs)
                     precision = pv.f.get('precision', srcs)
                     if not any(s.startswith(P_CTX) for s in srcs):
